@@ -141,8 +141,10 @@ def m16_copy_is_complete(prog, ctx, rule="M16"):
         elif not nonnull:
             ctx.fail(rule, "cpy_file_entry copies .%s from the source's .%s" % (fld, fld), sts[0][0].where,
                      "the copy's .%s is always NULL: merged entries lose it" % fld, key="copy-field:%s" % fld)
+        elif src:
+            ctx.fail(rule, "cpy_file_entry copies .%s from the source's .%s" % (fld, fld), sts[0][0].where, "set from %s" % sorted(src), key="copy-field:%s" % fld)
         else:
-            ctx.fail(rule, "cpy_file_entry copies .%s from the source's .%s" % (fld, fld), sts[0][0].where, "set from %s" % (sorted(src) or "no field of the source"), key="copy-field:%s" % fld)
+            ctx.inconclusive(rule, "cpy_file_entry copies .%s from the source's .%s" % (fld, fld), sts[0][0].where, "set from `%s`: not followed" % render(nonnull[0])[:50])
 
 
 def run(prog, ctx):
